@@ -245,6 +245,7 @@ NOT_APPLICABLE = {
 TEXT_ADDENDA = {
     "C03": " Delivery: the real try_send loops (notify_watchers, the removed-notification of remove_value) are verified over a per-channel model - every registration of the key is handed the changed / changed-version (resp. removed) line exactly once, a channel without a registration for the key nothing (unit delivery); selecting a database again ends no subscription (unit sessions); a write that wins a newer resolution is notified (unit consensus).",
     "C12": " The declutter step IS verified (unit rotation: the real remove_old_db_files over a directory token - with ten or more rotated files exactly the nine newest remain, in their order, with fewer nothing is deleted). Oplog::try_write_op_log: an accepted record is the last record of the live stream also when the write rolled the file over.",
+    "C16": " The DISCARD step itself is verified (unit rotation: the real Oplog::clean_op_log_metadata_files over a directory token - afterwards the live oplog file, the flag file and every rotated `*.op` file are gone, nothing else is deleted).",
     "C15": " The two fan-out functions register an operation for exactly the members they hand it to (never this node itself), and the ack handler's closure is the accounting step whatever the node's role.",
     "C13": " Every registered arbiter is handed a notice once (real loop, unit delivery); a key in conflict survives a restart (loader, unit snapshot); the resolved value leaves the node as an ordinary write line (unit outbox).",
     "C07": " Also: on every path of start_election some time is spent asleep between announcing the candidacy and claiming (explicit clock token), and the closures of set-primary / set-secoundary tag the link with the last announced member and role.",
